@@ -30,7 +30,7 @@ mod c03 {
 
     /// decode(encode(h)) == h on every observable field, for every flag combination and field
     /// value; exact length; decoder consumes exactly the header and leaves the payload.
-    // TIER: quick
+    // TIER: quick   ALSO: C17
     // KIND: complete
     #[kani::proof]
     fn c03_proto_hdr_roundtrip() {
@@ -87,7 +87,7 @@ mod c03 {
     /// The decoder is total on arbitrary (plain text) bytes: never panics, accepts exactly the
     /// strings with declared flag bits that are long enough, and re-encoding what it decoded
     /// reproduces the consumed bytes.
-    // TIER: quick
+    // TIER: quick   ALSO: C17
     // KIND: bounded (input length <= 16 bytes; the decoder reads at most 12)
     #[kani::proof]
     fn c03_proto_hdr_decode_total() {
